@@ -78,6 +78,8 @@ pub struct GenCfg {
     pub w: [u32; 8],
     /// avoid constructs listed here (known-finding exclusions), counted in `excluded`
     pub avoid: BTreeSet<&'static str>,
+    /// probability (out of 4) of creating kernel procedures up front
+    pub kernel_pre: u32,
 }
 
 impl Default for GenCfg {
@@ -100,6 +102,7 @@ impl Default for GenCfg {
             max_inputs: 24,
             w: [10, 10, 10, 4, 6, 3, 2, 2],
             avoid: BTreeSet::new(),
+            kernel_pre: 1,
         }
     }
 }
@@ -1166,6 +1169,9 @@ impl<'a> Gen<'a> {
             if self.cfg.kernel {
                 kinds.push(2);
                 kinds.push(2);
+                if self.gen_depth > 0 && !self.prog.kprocs.is_empty() {
+                    kinds.extend([2, 2, 2, 2]);
+                }
             }
         }
         if self.cfg.dyns {
@@ -1272,7 +1278,7 @@ pub fn generate(choices: &[u16], cfg: GenCfg) -> Generated {
     m.adv_on_demand = g.cfg.adv;
     m.adv_rng = 0x1234_5678_9abc_def1 ^ ((g.ch.next() as u64) << 20);
     let len = g.cfg.max_nodes;
-    if g.cfg.kernel && g.cfg.procs && g.cfg.calls && g.ch.chance(1, 3) {
+    if g.cfg.kernel && g.cfg.procs && g.cfg.calls && g.ch.chance(g.cfg.kernel_pre, 4) {
         // kernel procedures must exist before the procedures that syscall them
         let nk = 1 + g.ch.pick(2);
         for _ in 0..nk {
